@@ -139,7 +139,9 @@ func c06RandomItems(c *core.Ctx, web bool) []c06Item {
 			s.Pattern = "||site.com^"
 			s.Exception = c.Rng.Intn(5) > 0
 			if s.Exception {
-				switch c.Rng.Intn(7) {
+				switch c.Rng.Intn(9) {
+				case 7:
+					s.DocOpts = [][]string{{"urlblock", "genericblock"}, {"genericblock", "urlblock"}, {"document", "genericblock"}, {"genericblock", "elemhide"}, {"urlblock", "elemhide", "jsinject"}}[c.Rng.Intn(5)]
 				case 0, 1:
 					s.DocOpts = []string{"urlblock"}
 				case 2, 3:
@@ -294,6 +296,10 @@ var c06Catalog = func() (out []c06Item) {
 	add(false, &gen.Spec{Badfilter: true})
 	add(false, &gen.Spec{Badfilter: true, Exception: true})
 	add(false, &gen.Spec{Badfilter: true, Important: true})
+	for _, os := range [][]string{{"urlblock", "genericblock"}, {"document", "genericblock"}, {"genericblock", "elemhide"}} {
+		add(true, &gen.Spec{Exception: true, DocOpts: os})
+		add(false, &gen.Spec{Exception: true, DocOpts: os})
+	}
 	add(true, &gen.Spec{Exception: true})
 	add(true, &gen.Spec{})
 	add(true, &gen.Spec{Exception: true, Stealth: true})
@@ -463,7 +469,7 @@ func init() {
 	core.Register(&core.Prop{
 		ID:    "C06",
 		Level: "exploration",
-		Rule: "exhaustive part: every subset of up to 3 (thorough 4) shapes of a 39-shape catalogue (request-side: exception x important x {generic, $domain-specific, ~domain-only}, document-level exceptions, $dnsrewrite, $stealth, badfilter twins; referrer-side: document-level exceptions x important, plain rules, $stealth, badfilter twins) in ALL permutations; sampled part: multisets of 1..5 matching rules (plus badfilter twins) over {exception} x {important} x {generic, $domain-specific, ~domain-only} x {no doc modifier, urlblock, genericblock, elemhide, document} x {$dnsrewrite} x {$stealth}, request-side and referrer-side; " +
+		Rule: "exhaustive part: every subset of up to 3 (thorough 4) shapes of a 45-shape catalogue (request-side: exception x important x {generic, $domain-specific, ~domain-only}, document-level exceptions, $dnsrewrite, $stealth, badfilter twins; referrer-side: document-level exceptions (also with two options on one rule) x important, plain rules, $stealth, badfilter twins) in ALL permutations; sampled part: multisets of 1..5 matching rules (plus badfilter twins) over {exception} x {important} x {generic, $domain-specific, ~domain-only} x {no doc modifier, urlblock, genericblock, elemhide, document} x {$dnsrewrite} x {$stealth}, request-side and referrer-side; " +
 			"ALL permutations of every multiset through NewMatchingResult / GetDNSBasicRule, and every fifth permutation through Engine.MatchRequest, NetworkEngine.Match and DNSEngine.MatchRequest with a random split into 1..3 lists; " +
 			"oracle = precedence reference on specs (class in block/allow/none) plus invariants on the selected rule; non-trivial = every multiset (distinct by sorted rule texts and sides)",
 		Assumptions: []string{
